@@ -374,7 +374,12 @@ def c09(tier):
     # directed bases: (year, gate) pairs no solved explored return supplied.  The forcing reader's own paths (forced
     # execution) tell which other yes/no and choice answers lead to the question being asked at all.
     ndirected = 0
-    uncovered = [(int(y), g) for g in cat for y in g["years"] if (int(y), g["input"]) not in flips_done]
+    ndirected_ok = 0
+    # ... and, with fewer attempts, for every other pair too: a gate that only matters next to particular other answers
+    # (both spouses' IRA questions present, say) is not exercised by flipping it on whatever return happened to supply it
+    never = set((int(y), g["input"]) for g in cat for y in g["years"] if (int(y), g["input"]) not in flips_done)
+    uncovered = [(int(y), g) for g in cat for y in g["years"]]
+    line_cache = {}
     if uncovered:
         import pathexplore
         pcat = {}
@@ -396,7 +401,9 @@ def c09(tier):
                 field = next((x for x in form.fields() if x.base_name() == lname), None)
                 if field is None:
                     continue
-                rec = pathexplore.explore_line(pcat[year], form, field, max_paths=(400 if tier == "quick" else 2000))
+                if (year, reader) not in line_cache:
+                    line_cache[(year, reader)] = pathexplore.explore_line(pcat[year], form, field, max_paths=(400 if tier == "quick" else 2000))
+                rec = line_cache[(year, reader)]
                 for dec, out in rec["gate_obs"]:
                     # a path on which the question is asked, whatever the answer and the outcome (the CURRENT tree's
                     # outcome must not decide where to look: a gate that stopped working has no "unimplemented" path)
@@ -416,14 +423,19 @@ def c09(tier):
                     uniq.append(e)
             enablers = uniq
             done = False
-            for k_try, (cost, _n, gkey, others) in enumerate(enablers[:(3 if tier == "quick" else 10)]):
+            is_new = (year, g["input"]) in never
+            for k_try, (cost, _n, gkey, others) in enumerate(enablers[:((3 if is_new else 1) if tier == "quick" else 10)]):
                 if done or cost > 0:
                     break
                 ov = {}
                 for k, v in others.items():
                     ov[k] = {"True": "yes", "False": "no"}.get(str(v), str(v).split(".")[-1] if str(v) != "None" else "")
                 ov[gkey] = {"True": "no", "False": "yes"}.get(g["affirmative"], "")
-                for rep_k in range(2 if tier == "quick" else 6):
+                if "ira" in g["input"]:
+                    # both spouses take an IRA distribution (the Form 1099-R copies carry who and whether it is an IRA)
+                    ov.update({"1099-r:0.belongs_to": "taxpayer", "1099-r:1.belongs_to": "spouse" if "spouse" in g["input"] else "taxpayer",
+                               "1099-r:0.box_7_ira_sep_simple": "yes", "1099-r:1.box_7_ira_sep_simple": "yes"})
+                for rep_k in range((4 if is_new else 2) if tier == "quick" else 8):
                     rng = random.Random("dir-%d-%s-%d-%d-%d" % (year, g["input"], k_try, rep_k, sd))
                     force = {"ira": True, "f8606": True, "qualified_div": True, "nc": g["input"].startswith("nc_")}
                     if "spouse" in g["input"]:
@@ -444,6 +456,7 @@ def c09(tier):
                                "sid": "dir/%d/%s/%d" % (year, g["input"], rep_k)}
                         add(tr, res, year, {"kind": "directed-base", "sid": sc2["sid"], "year": year, "request": request, "given": sc2["given"]}, sc2["given"])
                         flips_done[(year, g["input"])] = 1
+                        ndirected_ok += 1
                         flip(sc2, gkey)
                         done = True
                         break
@@ -536,7 +549,8 @@ def c09(tier):
            "catalogue_gates": len(cat), "gates_flipped": sorted(flipped_gates), "flipped_runs": nflip, "same_store_flips": nsame, "base_runs": len(scs),
            "gates_never_read": sorted(gate_inputs - flipped_gates),
            "year_gate_pairs_flipped_on_a_solved_base": len(flips_done), "directed_base_attempts": ndirected,
-           "year_gate_pairs_never_flipped": sorted("%s:%s" % (y, g["input"]) for g in cat for y in g["years"] if (int(y), g["input"]) not in flips_done), "gate_like_inputs_missing_from_catalogue": fresh,
+           "year_gate_pairs_never_flipped": sorted("%s:%s" % (y, g["input"]) for g in cat for y in g["years"] if (int(y), g["input"]) not in flips_done),
+           "year_gate_pairs_flipped_on_a_directed_base": ndirected_ok, "gate_like_inputs_missing_from_catalogue": fresh,
            "explanation": "TLC evaluates Gates.tla (solved => no affirmative gate read by a non-exempt reader, no exceeded limit) on the trace summary of every explored run"}
     return rep, "exploration", cov, ["the gate catalogue (data/gates.json) is frozen and reviewed; it was drafted by forced execution (harness/derive_gates.py)",
                                      "HSA-above-limit scenarios are covered through the 8889 gates (age_under_55 / hsa_full_year) and C08's limit amounts"]
